@@ -380,7 +380,8 @@ Qed.
 Lemma lit_head_not_in_field l0 lt c x ns :
   lit_ok (l0 :: lt) = true -> forallb (fun ch => negb (Ascii.eqb l0 ch)) (field c x ns) = true.
 Proof.
-  unfold lit_ok. intros H. apply andb_true_iff in H. destruct H as [H H3]. apply andb_true_iff in H. destruct H as [H1 H2].
+  unfold lit_ok. intros H. apply andb_true_iff in H. destruct H as [H _]. unfold lit_head_ok in H.
+  apply andb_true_iff in H. destruct H as [H H3]. apply andb_true_iff in H. destruct H as [H1 H2].
   apply negb_true_iff in H1, H2, H3. clear H3.
   eapply forallb_imp; [|apply field_chars]. intros a Ha. unfold field_char in Ha.
   destruct (Ascii.eqb_spec l0 a) as [->|]; [|reflexivity]. rewrite H1, H2 in Ha. discriminate.
@@ -514,7 +515,7 @@ Theorem strptime_render pre ps t ns :
   strp_exact (pre ++ render ps (tm_of_sec t) ns) (pre ++ flat_parse ps)
   = POk (t * 1000000000 + trunc_ns (last_frac ps 0) ns).
 Proof.
-  intros Hf Ht Hns. unfold format_ok in Hf. apply andb_true_iff in Hf. destruct Hf as [Hf Hdet].
+  intros Hf Ht Hns. unfold format_ok in Hf. apply andb_true_iff in Hf. destruct Hf as [Hf _]. apply andb_true_iff in Hf. destruct Hf as [Hf Hdet].
   apply andb_true_iff in Hf. destruct Hf as [Hpre Hok].
   set (x := tm_of_sec t). pose proof (good_tm_of_sec t Ht) as G. fold x in G.
   unfold strp_exact. rewrite (lit_until_pct_app pre (flat_parse ps) Hpre (flat_parse_head ps)).
@@ -535,7 +536,7 @@ Theorem format_law pre ps t ns :
               strp_exact txt (pre ++ flat_parse ps) = POk (t * 1000000000 + trunc_ns (last_frac ps 0) ns).
 Proof.
   intros Hf Ht Hns. exists (pre ++ render ps (tm_of_sec t) ns). split; [|now apply strptime_render].
-  unfold format_ok in Hf. apply andb_true_iff in Hf. destruct Hf as [Hf Hdet].
+  unfold format_ok in Hf. apply andb_true_iff in Hf. destruct Hf as [Hf _]. apply andb_true_iff in Hf. destruct Hf as [Hf Hdet].
   apply andb_true_iff in Hf. destruct Hf as [Hpre Hok]. now apply strftime_format.
 Qed.
 
